@@ -260,6 +260,15 @@ def map_get(m, k):
     return m.get(k, 0)      # total: unspecified (0) outside the domain
 
 
+def map_set_range(m, address, values):
+    """in place: m[address + j] = values[j] for every j"""
+    if V is not None and isinstance(m, V.SMap):
+        m.set_range(address, values)
+    else:
+        for j, v in enumerate(list(values)):
+            m[address + j] = v
+
+
 # ----------------------------------------------------------------------------- arithmetic helpers
 def div(a, b):
     return a // b
